@@ -119,7 +119,9 @@ impl ToF for zkp::schnorr::Signature { fn tof(&self, o: &mut Oracle) -> String {
 impl ToF for TapTree { fn tof(&self, o: &mut Oracle) -> String { let id = serde_json::to_string(self).unwrap_or_default().into_bytes(); o.leaf("TapTree", id, self) } }
 // shapes
 impl<T: ToF> ToF for Option<T> { fn tof(&self, o: &mut Oracle) -> String { match self { None => "z".into(), Some(x) => format!("s{}", x.tof(o)) } } }
-impl<T: ToF> ToF for Vec<T> { fn tof(&self, o: &mut Oracle) -> String { let mut s = String::from("["); for x in self { s.push_str(&x.tof(o)); } s.push(']'); s } }
+// (no blanket impl for Vec<T>: Vec<u8> is a byte string)
+macro_rules! vec_tof { ($($t:ty),*) => { $( impl ToF for Vec<$t> { fn tof(&self, o: &mut Oracle) -> String { let mut s = String::from("["); for x in self { s.push_str(&x.tof(o)); } s.push(']'); s } } )* } }
+vec_tof!(Vec<u8>, Tweak, TapLeafHash, TapNodeHash, Input, Output);
 impl<A: ToF, B: ToF> ToF for (A, B) { fn tof(&self, o: &mut Oracle) -> String { format!("({}{})", self.0.tof(o), self.1.tof(o)) } }
 impl<K: ToF, V: ToF> ToF for BTreeMap<K, V> { fn tof(&self, o: &mut Oracle) -> String { let mut s = String::from("["); for (k, v) in self { s.push_str(&format!("({}{})", k.tof(o), v.tof(o))); } s.push(']'); s } }
 // derived structs: the fields in declaration order
